@@ -38,6 +38,48 @@ func fieldIdx(st *types.Struct, name string, pred func(types.Type) bool) int {
 	return -1
 }
 
+// fieldPath finds a field by name in st or, failing that, in exactly one of its
+// unexported struct-typed fields (state that was grouped into a nested struct).
+func fieldPath(st *types.Struct, name string) []int {
+	if i := fieldIdx(st, name, nil); i >= 0 {
+		return []int{i}
+	}
+	var found []int
+	for i := 0; i < st.NumFields(); i++ {
+		f := st.Field(i)
+		if f.Exported() {
+			continue
+		}
+		if in, ok := f.Type().Underlying().(*types.Struct); ok {
+			if j := fieldIdx(in, name, nil); j >= 0 {
+				if found != nil {
+					return nil
+				}
+				found = []int{i, j}
+			}
+		}
+	}
+	return found
+}
+
+// uSet stores v at path p inside the struct value u (copy-on-write of nested structs).
+func uSet(u fold.Struct, p []int, v fold.Val) {
+	if len(p) == 1 {
+		u.F[p[0]] = v
+		return
+	}
+	in, ok := u.F[p[0]].(fold.Struct)
+	if !ok {
+		return
+	}
+	in = fold.Struct{F: append([]fold.Val{}, in.F...)}
+	uSet(in, p[1:], v)
+	u.F[p[0]] = in
+}
+
+// uPath is prefix followed by p.
+func uPath(prefix int, p []int) []int { return append([]int{prefix}, p...) }
+
 func typeIs(s string) func(types.Type) bool {
 	return func(t types.Type) bool { return canonTypeString(t) == s }
 }
@@ -47,9 +89,11 @@ type readerLayout struct {
 	source, state, skip, checkUTF8, exts, maxFrame, onCont, onInter int
 	opCode, frame, raw, utf8, tmp, cr                               int
 	utf8Source, utf8Accepted, utf8State, utf8Codep                  int
-	crR, crMask, crPos                                              int
-	named                                                           *types.Named
-	cipherReader                                                    *types.Named
+	// paths of the same fields inside UTF8Reader (they may live in a nested struct)
+	utf8SourceP, utf8AcceptedP, utf8StateP, utf8CodepP []int
+	crR, crMask, crPos                                 int
+	named                                              *types.Named
+	cipherReader                                       *types.Named
 }
 
 func (c *Ctx) readerLayout(rule string) *readerLayout {
@@ -91,15 +135,16 @@ func (c *Ctx) readerLayout(rule string) *readerLayout {
 	L.utf8Accepted = fieldIdx(u, "accepted", nil)
 	L.utf8State = fieldIdx(u, "state", nil)
 	L.utf8Codep = fieldIdx(u, "codep", nil)
-	for name, v := range map[string]int{"Source": L.utf8Source, "accepted": L.utf8Accepted, "state": L.utf8State, "codep": L.utf8Codep} {
-		if v < 0 {
+	L.utf8SourceP, L.utf8AcceptedP, L.utf8StateP, L.utf8CodepP = fieldPath(u, "Source"), fieldPath(u, "accepted"), fieldPath(u, "state"), fieldPath(u, "codep")
+	for name, v := range map[string][]int{"Source": L.utf8SourceP, "accepted": L.utf8AcceptedP, "state": L.utf8StateP, "codep": L.utf8CodepP} {
+		if v == nil {
 			c.R.Unknown(rule, rule+"/anchor:wsutil.UTF8Reader."+name, "-", "field "+name+" of wsutil.UTF8Reader does not resolve: the validating reader keeps its automaton state in a shape these rules cannot follow")
 			return nil
 		}
 	}
 	L.cipherReader = c.P.NamedType(wsutil, "CipherReader")
 	cr := structOf(L.cipherReader)
-	if cr == nil || L.utf8Source < 0 {
+	if cr == nil {
 		c.R.Unknown(rule, rule+"/anchor:wsutil.CipherReader", "-", "type does not resolve")
 		return nil
 	}
@@ -360,10 +405,10 @@ func (c *Ctx) foldNextFrame(rule string) ([]nfPath, *readerLayout) {
 				st.F[L.frame] = fold.Iface{T: types.Typ[types.Invalid], V: fold.Sym{Name: "old-frame"}}
 				st.F[L.raw] = fold.Struct{F: []fold.Val{fold.Sym{Name: initRawR, NonNil: true}, fold.K(77)}}
 				u := st.F[L.utf8].(fold.Struct)
-				u.F[L.utf8Source] = fold.Sym{Name: initUTF8S, NonNil: true}
-				u.F[L.utf8State] = fold.K(24)
-				u.F[L.utf8Codep] = fold.K(5)
-				u.F[L.utf8Accepted] = fold.K(3)
+				uSet(u, L.utf8SourceP, fold.Sym{Name: initUTF8S, NonNil: true})
+				uSet(u, L.utf8StateP, fold.K(24))
+				uSet(u, L.utf8CodepP, fold.K(5))
+				uSet(u, L.utf8AcceptedP, fold.K(3))
 				crObj = nil
 				if cur.crNil {
 					st.F[L.cr] = fold.Nil{}
@@ -380,14 +425,14 @@ func (c *Ctx) foldNextFrame(rule string) ([]nfPath, *readerLayout) {
 			}, func(mm *fold.Machine, p *fold.Path) {
 				np := nfPath{in: cur, p: p, recv: recv}
 				np.frameV = mm.Load(fold.Ref{O: recv, Path: []int{L.frame}})
-				np.utf8SourceV = mm.Load(fold.Ref{O: recv, Path: []int{L.utf8, L.utf8Source}})
+				np.utf8SourceV = mm.Load(fold.Ref{O: recv, Path: uPath(L.utf8, L.utf8SourceP)})
 				ld := func(path ...int) string { return fold.Show(mm.Load(fold.Ref{O: recv, Path: path})) }
 				np.rawR, np.rawN = ld(L.raw, 0), ld(L.raw, 1)
 				np.frame = ld(L.frame)
 				np.state = ld(L.state)
 				np.opCode = ld(L.opCode)
-				np.utf8Source = ld(L.utf8, L.utf8Source)
-				np.utf8State = ld(L.utf8, L.utf8State)
+				np.utf8Source = ld(uPath(L.utf8, L.utf8SourceP)...)
+				np.utf8State = ld(uPath(L.utf8, L.utf8StateP)...)
 				crv := mm.Load(fold.Ref{O: recv, Path: []int{L.cr}})
 				np.cr = fold.Show(crv)
 				np.crV = crv
